@@ -304,6 +304,9 @@ def run(ctx: Ctx) -> Outcome:
     pt = qcel.periodictable
     out = Outcome()
     rng = ctx.rng
+    import sideeffects
+
+    sideeffects.exercise(out)  # header writers / table printers / comparison reports first: whatever they leave behind is seen by the sweep below
     T = Tables()
     exp, elements = T.exp, T.elements
     cases = []  # (acc, strict, arg, expected_species_or_None, tag)
@@ -462,6 +465,9 @@ def replay(ctx: Ctx, case) -> Outcome:
 
     pt = qcel.periodictable
     out = Outcome()
+    import sideeffects
+
+    sideeffects.exercise()
     acc, st, arg = case["accessor"], case["strict"], case["arg"]
     if case.get("decimal_context"):
         import decimal
